@@ -515,6 +515,12 @@ func (runInfo *runInfoStruct) invokeSliceExpr(expr *ast.SliceExpr) {
 	if item.Kind() == reflect.Interface && !item.IsNil() {
 		item = item.Elem()
 	}
+	if item.Kind() == reflect.Array && !item.CanAddr() {
+		// reflect slices addressable arrays only: slice a copy of an array value
+		array := reflect.New(item.Type()).Elem()
+		array.Set(item)
+		item = array
+	}
 
 	switch item.Kind() {
 	case reflect.String, reflect.Slice, reflect.Array:
